@@ -4,40 +4,89 @@
 // Comments only: with or without the build tag this file adds no code to the package.
 package markdown
 
-// Ghost sequence "exported": the body elements whose Markdown has been appended to the output, in order.
-// writeParagraph / writeTable append their element's Markdown to w.output (a strings.Builder, append only);
-// that each call contributes exactly its own element is the assumption stated by the `emits` clauses.
-//@ spec isPT(x any) bool = typeIs(x, "*document.Paragraph") || typeIs(x, "*document.Table")
-//@ spec ptCount(es []any, j int) int = ite(j <= 0, 0, ptCount(es, j - 1) + ite(isPT(es[j-1]), 1, 0))
+// The dispatch, as documented in the mapping of styles to Markdown blocks: a style "Heading…" is a heading whatever
+// else the paragraph carries (a numbered heading is still a heading), then Quote, then CodeBlock, then list membership,
+// everything else is a normal paragraph. mdOfParagraph(pre, w, para) is the output after the paragraph when it was pre before.
+//@ spec mdOfStyled(pre string, o *ExportOptions, para *document.Paragraph, style string) string = ite(strings.HasPrefix(style, "Heading"), outHeading(pre, o, para, style), ite(style == "Quote", outQuote(pre, o, para), ite(style == "CodeBlock", outCode(pre, o, para), ite(isListPara(para), outList(pre, o, para), outNormal(pre, o, para)))))
+//@ spec mdOfParagraph(pre string, o *ExportOptions, para *document.Paragraph) string = ite(para == nil, pre, mdOfStyled(pre, o, para, styleOf(para)))
 
 //@ func (*MarkdownWriter).writeParagraph
 //@ props C20
-//@ requires w != nil && w.opts != nil && para != nil
-//@ emits exported para
+//@ requires w != nil && w.opts != nil
+//@ modifies sb(w.output)
+//@ ensures result == nil
+//@ ensures sbContent(w.output) == old(mdOfParagraph(sbContent(w.output), w.opts, para))
+
+// GFM pipe table: header row, separator row with one "-----|" per header cell, then the remaining rows in order; each
+// row is "|" followed by " text |" per cell in cell order; a blank line ends the table. mdOfTable(pre, w, table) is the
+// output after the table when it was pre before (nothing for a nil or empty table).
+//@ spec gfmCells(pre string, o *ExportOptions, cs []document.TableCell, j int) string = ite(j <= 0, pre, gfmCells(pre, o, cs, j - 1) + (" " + cellText(o, &cs[j-1]) + " |"))
+//@ spec gfmRow(pre string, o *ExportOptions, cs []document.TableCell) string = gfmCells(pre + "|", o, cs, len(cs)) + "\n"
+//@ spec gfmSep(pre string, n int) string = ite(n <= 0, pre, gfmSep(pre, n - 1) + "-----|")
+//@ spec gfmHead(pre string, o *ExportOptions, cs []document.TableCell) string = gfmSep(gfmRow(pre, o, cs) + "|", len(cs)) + "\n"
+//@ spec gfmBody(pre string, o *ExportOptions, rows []document.TableRow, i int) string = ite(i <= 1, pre, gfmRow(gfmBody(pre, o, rows, i - 1), o, rows[i-1].Cells))
+//@ spec outGfmTable(pre string, o *ExportOptions, table *document.Table) string = gfmBody(gfmHead(pre, o, table.Rows[0].Cells), o, table.Rows, len(table.Rows)) + "\n"
+//@ spec mdOfTable(pre string, o *ExportOptions, table *document.Table) string = ite(table == nil || len(table.Rows) == 0, pre, ite(o.UseGFMTables, outGfmTable(pre, o, table), outSimpleTable(pre, o, table)))
 
 //@ func (*MarkdownWriter).writeTable
 //@ props C20
-//@ requires w != nil && w.opts != nil && table != nil
-//@ emits exported table
+//@ requires w != nil && w.opts != nil
+//@ modifies sb(w.output)
+//@ ensures result == nil
+//@ ensures sbContent(w.output) == old(mdOfTable(sbContent(w.output), w.opts, table))
+//@ loop 1
+//@   invariant 0 <= #i && #i <= len(headerRow.Cells) && unchangedHeap() && buildersUnchangedExcept(w.output) && w != nil && w.opts != nil && table != nil
+//@   invariant rows == table.Rows && len(rows) > 0 && headerRow.Cells == table.Rows[0].Cells
+//@   invariant sbContent(w.output) == old(gfmCells(sbContent(w.output) + "|", w.opts, table.Rows[0].Cells, #i))
+//@   decreases len(headerRow.Cells) - #i
+//@ loop 2
+//@   invariant 0 <= i && i <= len(headerRow.Cells) && unchangedHeap() && buildersUnchangedExcept(w.output) && w != nil && w.opts != nil && table != nil
+//@   invariant rows == table.Rows && len(rows) > 0 && headerRow.Cells == table.Rows[0].Cells
+//@   invariant sbContent(w.output) == old(gfmSep(gfmRow(sbContent(w.output), w.opts, table.Rows[0].Cells) + "|", i))
+//@   decreases len(headerRow.Cells) - i
 //@ loop 3
-//@   invariant 1 <= i
+//@   invariant 1 <= i && i <= len(rows) && unchangedHeap() && buildersUnchangedExcept(w.output) && w != nil && w.opts != nil && table != nil
+//@   invariant rows == table.Rows
+//@   invariant sbContent(w.output) == old(gfmBody(gfmHead(sbContent(w.output), w.opts, table.Rows[0].Cells), w.opts, table.Rows, i))
+//@   decreases len(rows) - i
+//@ loop 4
+//@   invariant 0 <= #i && #i <= len(rows[i].Cells) && unchangedHeap() && buildersUnchangedExcept(w.output) && w != nil && w.opts != nil && table != nil
+//@   invariant rows == table.Rows && 1 <= i && i < len(rows)
+//@   invariant sbContent(w.output) == old(gfmCells(gfmBody(gfmHead(sbContent(w.output), w.opts, table.Rows[0].Cells), w.opts, table.Rows, i) + "|", w.opts, table.Rows[i].Cells, #i))
+//@   decreases len(rows[i].Cells) - #i
 
-// Write exports every paragraph and table of the body, each exactly once, in body order (when no element
-// fails, or errors are ignored).
+// Write: the output is the metadata block (when enabled), followed by the Markdown of every paragraph and table of the
+// body in body order (other element kinds contribute nothing), followed by the footnote block (when enabled and there
+// are footnotes); the returned bytes are exactly that text. No error is ever reported, nothing of the document changes.
+//@ spec mdOfElem(pre string, o *ExportOptions, x any) string = ite(typeIs(x, "*document.Paragraph"), mdOfParagraph(pre, o, x.(*document.Paragraph)), ite(typeIs(x, "*document.Table"), mdOfTable(pre, o, x.(*document.Table)), pre))
+//@ spec bodyOut(pre string, o *ExportOptions, es []any, j int) string = ite(j <= 0, pre, mdOfElem(bodyOut(pre, o, es, j - 1), o, es[j-1]))
+//@ spec docStart(pre string, o *ExportOptions) string = ite(o.IncludeMetadata, pre + "---\n" + "title: \"Document\"\n" + "---\n\n", pre)
+//@ spec docBody(pre string, o *ExportOptions, doc *document.Document) string = ite(doc.Body == nil, docStart(pre, o), bodyOut(docStart(pre, o), o, doc.Body.Elements, len(doc.Body.Elements)))
+//@ spec notesOut(pre string, fs []string, j int) string = ite(j <= 0, pre, notesOut(pre, fs, j - 1) + ("[^" + (itoa(j) + ("]: " + (fs[j-1] + "\n")))))
+//@ spec outFootnotes(pre string, fs []string) string = notesOut(pre + "\n---\n\n", fs, len(fs))
+//@ spec docOut(pre string, o *ExportOptions, doc *document.Document, fs []string) string = ite(o.PreserveFootnotes && len(fs) > 0, outFootnotes(docBody(pre, o, doc), fs), docBody(pre, o, doc))
+
+//@ func (*MarkdownWriter).writeFootnotes
+//@ props C20
+//@ requires w != nil
+//@ modifies sb(w.output)
+//@ ensures sbContent(w.output) == old(outFootnotes(sbContent(w.output), w.footnotes))
+//@ loop 1
+//@   invariant 0 <= #i && #i <= len(w.footnotes) && unchangedHeap() && buildersUnchangedExcept(w.output) && w != nil
+//@   invariant sbContent(w.output) == old(notesOut(sbContent(w.output) + "\n---\n\n", w.footnotes, #i))
+//@   decreases len(w.footnotes) - #i
+
 //@ func (*MarkdownWriter).Write
 //@ props C20
 //@ requires w != nil && w.opts != nil && w.doc != nil
-//@ requires w.doc.Body == nil || (forall j int :: 0 <= j && j < len(w.doc.Body.Elements) ==> ref(w.doc.Body.Elements[j]) != nil)
-//@ ensures err == nil && old(w.doc.Body) != nil ==> evCount("exported") == old(evCount("exported") + ptCount(w.doc.Body.Elements, len(w.doc.Body.Elements)))
-//@ ensures err == nil && old(w.doc.Body) != nil ==> forall j int :: 0 <= j && j < old(len(w.doc.Body.Elements)) && old(isPT(w.doc.Body.Elements[j])) ==> ref(evAt("exported", old(evCount("exported") + ptCount(w.doc.Body.Elements, j)))) == old(ref(w.doc.Body.Elements[j]))
-//@ ensures err == nil && old(w.doc.Body) == nil ==> evCount("exported") == old(evCount("exported"))
+//@ modifies sb(w.output)
+//@ ensures err == nil
+//@ ensures sbContent(w.output) == old(docOut(sbContent(w.output), w.opts, w.doc, w.footnotes))
+//@ ensures len(result0) == len(sbContent(w.output)) && forall k int :: {result0[k]} 0 <= k && k < len(result0) ==> result0[k] == sbContent(w.output)[k]
 //@ loop 1
-//@   invariant 0 <= #i && #i <= old(len(w.doc.Body.Elements)) && w != nil && w.opts != nil
-//@   invariant evCount("exported") == old(evCount("exported") + ptCount(w.doc.Body.Elements, #i))
-//@   invariant forall j int :: 0 <= j && j <= #i ==> 0 <= old(ptCount(w.doc.Body.Elements, j))
-//@   invariant forall j int :: 0 <= j && j < #i && old(isPT(w.doc.Body.Elements[j])) ==> old(ptCount(w.doc.Body.Elements, j)) < evCount("exported") - old(evCount("exported"))
-//@   invariant forall j int :: 0 <= j && j < #i && old(isPT(w.doc.Body.Elements[j])) ==> ref(evAt("exported", old(evCount("exported") + ptCount(w.doc.Body.Elements, j)))) == old(ref(w.doc.Body.Elements[j]))
-//@   decreases old(len(w.doc.Body.Elements)) - #i
+//@   invariant 0 <= #i && #i <= len(w.doc.Body.Elements) && unchangedHeap() && buildersUnchangedExcept(w.output) && w != nil && w.opts != nil && w.doc != nil && w.doc.Body != nil
+//@   invariant sbContent(w.output) == old(bodyOut(docStart(sbContent(w.output), w.opts), w.opts, w.doc.Body.Elements, #i))
+//@   decreases len(w.doc.Body.Elements) - #i
 
 // Text of a paragraph: every run contributes its formatted text exactly once, in run order.
 // codeS: the run uses one of the monospace fonts the exporter treats as inline code (strings.Contains is an
@@ -59,29 +108,200 @@ package markdown
 //@ spec wrapEmph(text string, bold bool, italic bool, em string) string = ite(bold, ite(italic, "***" + text + "***", "**" + text + "**"), ite(italic, em + text + em, text))
 //@ spec wrapStrike(text string, strike bool) string = ite(strike, "~~" + text + "~~", text)
 //@ spec wrapCode(text string, code bool) string = ite(code, "`" + text + "`", text)
-//@ spec fmtRun(w *MarkdownWriter, run *document.Run) string = ite(run == nil || run.Text.Content == "", "", ite(run.Properties == nil, run.Text.Content, wrapCode(wrapStrike(wrapEmph(run.Text.Content, run.Properties.Bold != nil, run.Properties.Italic != nil, w.opts.EmphasisMarker), run.Properties.Strike != nil), codeS(run.Properties))))
+//@ spec fmtRun(o *ExportOptions, run *document.Run) string = ite(run == nil || run.Text.Content == "", "", ite(run.Properties == nil, run.Text.Content, wrapCode(wrapStrike(wrapEmph(run.Text.Content, run.Properties.Bold != nil, run.Properties.Italic != nil, o.EmphasisMarker), run.Properties.Strike != nil), codeS(run.Properties))))
 
 //@ func (*MarkdownWriter).formatRunText
 //@ props C20
 //@ requires w != nil && w.opts != nil
 //@ modifies nothing
-//@ ensures result == fmtRun(w, run)
+//@ ensures result == fmtRun(w.opts, run)
 
 // runsCat(w, rs, j): concatenation of fmtRun over the first j runs.
-//@ spec runsCat(w *MarkdownWriter, rs []document.Run, j int) string = ite(j <= 0, "", runsCat(w, rs, j - 1) + fmtRun(w, &rs[j-1]))
+//@ spec runsCat(o *ExportOptions, rs []document.Run, j int) string = ite(j <= 0, "", runsCat(o, rs, j - 1) + fmtRun(o, &rs[j-1]))
 
 //@ func (*MarkdownWriter).extractParagraphText
 //@ props C20
 //@ requires w != nil && w.opts != nil
 //@ modifies nothing
 //@ ensures para == nil ==> result == ""
-//@ ensures para != nil ==> result == old(runsCat(w, para.Runs, len(para.Runs)))
+//@ ensures para != nil ==> result == old(runsCat(w.opts, para.Runs, len(para.Runs)))
 //@ loop 1
 //@   invariant 0 <= #i && #i <= len(para.Runs) && unchangedHeap() && para != nil
-//@   invariant sbContent(result) == old(runsCat(w, para.Runs, #i))
+//@   invariant sbContent(result) == old(runsCat(w.opts, para.Runs, #i))
 //@   decreases len(para.Runs) - #i
 
 //@ func (*MarkdownWriter).writeMetadata
 //@ props C20
 //@ requires w != nil
+//@ modifies sb(w.output)
 //@ ensures sbContent(w.output) == old(sbContent(w.output)) + "---\n" + "title: \"Document\"\n" + "---\n\n"
+
+// ---- paragraph writers -------------------------------------------------------------------------------------------
+// Every writer appends to w.output and writes nothing else (modifies sb(w.output): no heap of the document or of the
+// writer changes, no other builder changes). The Markdown of an element is given as an "output transformer":
+// out<Kind>(pre, ...) is the content of the output after the element has been written when it was pre before; by
+// construction it is pre followed by text that does not depend on pre (there is no associativity axiom for string
+// concatenation, so the transformers are nested exactly like the sequence of WriteString calls).
+
+//@ spec paraText(o *ExportOptions, para *document.Paragraph) string = ite(para == nil, "", runsCat(o, para.Runs, len(para.Runs)))
+//@ spec blank(s string) bool = strings.TrimSpace(s) == ""
+//@ spec styleOf(para *document.Paragraph) string = ite(para.Properties != nil && para.Properties.ParagraphStyle != nil, para.Properties.ParagraphStyle.Val, "Normal")
+//@ spec isListPara(para *document.Paragraph) bool = para.Properties != nil && para.Properties.NumberingProperties != nil
+
+//@ func (*MarkdownWriter).getParagraphStyle
+//@ props C20
+//@ requires para != nil
+//@ modifies nothing
+//@ ensures result == styleOf(para)
+
+//@ func (*MarkdownWriter).isListParagraph
+//@ props C20
+//@ requires para != nil
+//@ modifies nothing
+//@ ensures result == isListPara(para)
+
+//@ func (*MarkdownWriter).isNumberedList
+//@ props C20
+//@ modifies nothing
+//@ ensures result == false
+
+//@ spec outCode(pre string, o *ExportOptions, para *document.Paragraph) string = ite(blank(paraText(o, para)), pre, pre + ("```" + o.DefaultCodeLang + "\n") + (paraText(o, para) + "\n") + "```\n\n")
+
+//@ func (*MarkdownWriter).writeCodeBlock
+//@ props C20
+//@ requires w != nil && w.opts != nil
+//@ modifies sb(w.output)
+//@ ensures result == nil
+//@ ensures sbContent(w.output) == old(outCode(sbContent(w.output), w.opts, para))
+
+//@ spec outList(pre string, o *ExportOptions, para *document.Paragraph) string = ite(blank(paraText(o, para)), pre, pre + (o.BulletListMarker + " " + paraText(o, para) + "\n"))
+
+//@ func (*MarkdownWriter).writeListItem
+//@ props C20
+//@ requires w != nil && w.opts != nil
+//@ modifies sb(w.output)
+//@ ensures result == nil
+//@ ensures sbContent(w.output) == old(outList(sbContent(w.output), w.opts, para))
+
+// Heading level: the number in the style name ("Heading3" -> 3), 1 when there is none, at most 6 (and at least 1).
+// reFindString(p, s) is the executor's symbol for regexp.MustCompile(p).FindString(s) (a function of p and s).
+//@ spec hlevelRaw(style string) int = ite(reFindString("\\d+", style) != "" && atoiOK(reFindString("\\d+", style)), atoi(reFindString("\\d+", style)), 1)
+//@ spec hlevel(style string) int = ite(hlevelRaw(style) > 6, 6, ite(hlevelRaw(style) < 1, 1, hlevelRaw(style)))
+
+//@ func (*MarkdownWriter).getHeadingLevel
+//@ props C20
+//@ modifies nothing
+//@ ensures result == hlevelRaw(style)
+
+//@ spec outHeading(pre string, o *ExportOptions, para *document.Paragraph, style string) string = ite(blank(paraText(o, para)), pre, ite(o.UseSetext && hlevel(style) <= 2, ite(hlevel(style) == 1, pre + (paraText(o, para) + "\n") + (strings.Repeat("=", len(paraText(o, para))) + "\n\n"), pre + (paraText(o, para) + "\n") + (strings.Repeat("-", len(paraText(o, para))) + "\n\n")), pre + (strings.Repeat("#", hlevel(style)) + " " + paraText(o, para) + "\n\n")))
+
+//@ func (*MarkdownWriter).writeHeading
+//@ props C20
+//@ requires w != nil && w.opts != nil
+//@ modifies sb(w.output)
+//@ ensures result == nil
+//@ ensures sbContent(w.output) == old(outHeading(sbContent(w.output), w.opts, para, style))
+
+// Quote: every line of the text (strings.Split(text, "\n"): splitLen/splitAt are the executor's symbols for the number
+// of pieces and the i-th piece) is prefixed with "> ", in order; a blank line ends the block.
+//@ spec quoteLines(pre string, text string, j int) string = ite(j <= 0, pre, quoteLines(pre, text, j - 1) + ("> " + splitAt(text, "\n", j - 1) + "\n"))
+//@ spec outQuote(pre string, o *ExportOptions, para *document.Paragraph) string = ite(blank(paraText(o, para)), pre, quoteLines(pre, paraText(o, para), splitLen(paraText(o, para), "\n")) + "\n")
+
+//@ func (*MarkdownWriter).writeQuote
+//@ props C20
+//@ requires w != nil && w.opts != nil
+//@ modifies sb(w.output)
+//@ ensures result == nil
+//@ ensures sbContent(w.output) == old(outQuote(sbContent(w.output), w.opts, para))
+//@ loop 1
+//@   invariant 0 <= #i && #i <= len(lines) && unchangedHeap() && buildersUnchangedExcept(w.output) && w != nil
+//@   invariant len(lines) == splitLen(text, "\n") && forall k int :: {lines[k]} 0 <= k && k < len(lines) ==> lines[k] == splitAt(text, "\n", k)
+//@   invariant sbContent(w.output) == quoteLines(old(sbContent(w.output)), text, #i)
+//@   decreases len(lines) - #i
+
+// wrapText: greedy filling of lines with the words of the text (strings.Fields(text): fieldsLen/fieldsAt are the
+// executor's symbols for the number of words and the i-th word). wrapLine(t, m, j) is the line under construction after
+// j words, wrapRes(t, m, j) the completed lines; the result is a function of the two arguments only (no writer state).
+//@ spec wrapLine(t string, m int, j int) string = ite(j <= 0, "", ite(len(wrapLine(t, m, j - 1)) > 0 && len(wrapLine(t, m, j - 1)) + len(fieldsAt(t, j - 1)) + 1 <= m, wrapLine(t, m, j - 1) + " " + fieldsAt(t, j - 1), fieldsAt(t, j - 1)))
+//@ spec wrapRes(t string, m int, j int) string = ite(j <= 0, "", ite(len(wrapLine(t, m, j - 1)) > 0 && len(wrapLine(t, m, j - 1)) + len(fieldsAt(t, j - 1)) + 1 > m, wrapRes(t, m, j - 1) + (wrapLine(t, m, j - 1) + "\n"), wrapRes(t, m, j - 1)))
+//@ spec wrapOut(t string, m int) string = ite(len(t) <= m, t, ite(len(wrapLine(t, m, fieldsLen(t))) > 0, wrapRes(t, m, fieldsLen(t)) + wrapLine(t, m, fieldsLen(t)), wrapRes(t, m, fieldsLen(t))))
+
+//@ func (*MarkdownWriter).wrapText
+//@ props C20
+//@ modifies nothing
+//@ ensures result == wrapOut(text, maxLength)
+//@ loop 1
+//@   invariant 0 <= #i && #i <= fieldsLen(text)
+//@   invariant sbContent(line) == wrapLine(text, maxLength, #i)
+//@   invariant sbContent(result) == wrapRes(text, maxLength, #i)
+//@   decreases fieldsLen(text) - #i
+
+//@ spec wrapped(o *ExportOptions, text string) string = ite(o.WrapLongLines && len(text) > o.MaxLineLength, wrapOut(text, o.MaxLineLength), text)
+//@ spec outNormal(pre string, o *ExportOptions, para *document.Paragraph) string = ite(blank(paraText(o, para)), pre + "\n", pre + (wrapped(o, paraText(o, para)) + "\n\n"))
+
+//@ func (*MarkdownWriter).writeNormalParagraph
+//@ props C20
+//@ requires w != nil && w.opts != nil
+//@ modifies sb(w.output)
+//@ ensures result == nil
+//@ ensures sbContent(w.output) == old(outNormal(sbContent(w.output), w.opts, para))
+
+// ---- tables ---------------------------------------------------------------------------------------------------
+// Text of a cell: the paragraph texts of the cell concatenated in order, line breaks replaced by blanks, trimmed.
+//@ spec cellCat(o *ExportOptions, ps []document.Paragraph, j int) string = ite(j <= 0, "", cellCat(o, ps, j - 1) + runsCat(o, ps[j-1].Runs, len(ps[j-1].Runs)))
+//@ spec cellText(o *ExportOptions, cell *document.TableCell) string = ite(cell == nil, "", strings.TrimSpace(strings.ReplaceAll(cellCat(o, cell.Paragraphs, len(cell.Paragraphs)), "\n", " ")))
+
+//@ func (*MarkdownWriter).extractCellText
+//@ props C20
+//@ requires w != nil && w.opts != nil
+//@ modifies nothing
+//@ ensures result == old(cellText(w.opts, cell))
+//@ loop 1
+//@   invariant 0 <= #i && #i <= len(cell.Paragraphs) && unchangedHeap() && cell != nil
+//@   invariant sbContent(result) == old(cellCat(w.opts, cell.Paragraphs, #i))
+//@   decreases len(cell.Paragraphs) - #i
+
+// Simple table format: the cells of a row separated by " | ", the first row wrapped in "**", one line per row, in row
+// and cell order; a blank line ends the table.
+//@ spec simpleCells(pre string, o *ExportOptions, cs []document.TableCell, j int) string = ite(j <= 0, pre, ite(j - 1 > 0, simpleCells(pre, o, cs, j - 1) + " | " + cellText(o, &cs[j-1]), simpleCells(pre, o, cs, j - 1) + cellText(o, &cs[j-1])))
+//@ spec simpleRowStart(pre string, i int) string = ite(i == 0, pre + "**", pre)
+//@ spec simpleRowEnd(cur string, i int) string = ite(i == 0, cur + "**" + "\n", cur + "\n")
+//@ spec simpleRows(pre string, o *ExportOptions, rows []document.TableRow, i int) string = ite(i <= 0, pre, simpleRowEnd(simpleCells(simpleRowStart(simpleRows(pre, o, rows, i - 1), i - 1), o, rows[i-1].Cells, len(rows[i-1].Cells)), i - 1))
+//@ spec outSimpleTable(pre string, o *ExportOptions, table *document.Table) string = simpleRows(pre, o, table.Rows, len(table.Rows)) + "\n"
+
+//@ func (*MarkdownWriter).writeSimpleTable
+//@ props C20
+//@ requires w != nil && w.opts != nil && table != nil
+//@ modifies sb(w.output)
+//@ ensures result == nil
+//@ ensures sbContent(w.output) == old(outSimpleTable(sbContent(w.output), w.opts, table))
+//@ loop 1
+//@   invariant 0 <= #i && #i <= len(table.Rows) && unchangedHeap() && buildersUnchangedExcept(w.output) && w != nil && w.opts != nil && table != nil
+//@   invariant sbContent(w.output) == old(simpleRows(sbContent(w.output), w.opts, table.Rows, #i))
+//@   decreases len(table.Rows) - #i
+//@ loop 2
+//@   invariant 0 <= #i && #i <= len(row.Cells) && unchangedHeap() && buildersUnchangedExcept(w.output) && w != nil && w.opts != nil && table != nil
+//@   invariant 0 <= i && i < len(table.Rows) && row.Cells == table.Rows[i].Cells
+//@   invariant sbContent(w.output) == old(simpleCells(simpleRowStart(simpleRows(sbContent(w.output), w.opts, table.Rows, i), i), w.opts, table.Rows[i].Cells, #i))
+//@   decreases len(row.Cells) - #i
+
+// The public entry point: the bytes returned are the Markdown of the document under the options in effect (the
+// options argument when given, else the exporter's own), a function of the document and those options only: exporting
+// the same document again yields the same bytes. The options argument, when given, becomes the exporter's default.
+//@ func (*Exporter).ExportToBytes
+//@ props C20
+//@ requires e != nil && doc != nil && (options != nil || e.opts != nil)
+//@ modifies Exporter.opts
+//@ ensures err == nil
+//@ ensures e.opts == ite(options != nil, options, old(e.opts))
+//@ ensures len(result0) == len(old(docBody("", ite(options != nil, options, e.opts), doc)))
+//@ ensures forall k int :: {result0[k]} 0 <= k && k < len(result0) ==> result0[k] == old(docBody("", ite(options != nil, options, e.opts), doc))[k]
+
+//@ func (*Exporter).ExportToString
+//@ props C20
+//@ requires e != nil && doc != nil && (options != nil || e.opts != nil)
+//@ modifies Exporter.opts
+//@ ensures err == nil
+//@ ensures e.opts == ite(options != nil, options, old(e.opts))
+//@ ensures len(result0) == len(old(docBody("", ite(options != nil, options, e.opts), doc)))
+//@ ensures forall k int :: {result0[k]} 0 <= k && k < len(result0) ==> result0[k] == old(docBody("", ite(options != nil, options, e.opts), doc))[k]
